@@ -13,7 +13,7 @@ sys.path.insert(0, os.path.dirname(os.path.abspath(__file__)))
 from fractions import Fraction as F
 import gen_cases as G
 from gen_cases import Rng, hexd, unhex, PARAM0
-import gen_lean, gen_rates, runner, build_harness, oracles, props
+import gen_lean, gen_rates, effects, runner, build_harness, oracles, props
 
 VERIF = os.path.dirname(os.path.dirname(os.path.abspath(__file__)))
 LEAN = os.path.join(VERIF, "lean")
@@ -155,6 +155,14 @@ def main():
     except gen_lean.TranslatorError as e:
         rates_err = str(e)
 
+    # shared-storage writes of the solver entry points (C16): regenerated from the clang AST of /repo's headers
+    effects_err = None
+    if pid == "C16":
+        try:
+            effects.write()
+        except effects.EffectsError as e:
+            effects_err = str(e)
+
     # 2. proofs
     obl = {"ok": False, "theorems": [], "errors": []}
     if trans_err:
@@ -166,6 +174,9 @@ def main():
     if rates_err and pid == "C15":
         obl["ok"] = False
         obl["errors"].append("translator (rate-constant formulas): " + rates_err)
+    if effects_err:
+        obl["ok"] = False
+        obl["errors"].append("translator (shared-storage effects of the solver entry points): " + effects_err)
     broken_obligation = not obl["ok"]
 
     # 3. harness + cases
